@@ -670,7 +670,39 @@ class Executor:
                 if isinstance(op, ast.NotEq):
                     yield st, sym.Not(eqv)
                     return
-                raise Unsupported(f"ordering of symbolic tuples at line {line}")
+                # lexicographic ordering, as CPython does it: the first position where the items are not == decides with the
+                # operator itself (TypeError when those two items cannot be ordered, e.g. None and an int); equal prefixes
+                # fall back on the lengths
+                nums = lambda v: sym.is_num(v)
+                prefix = []
+                for x, y in zip(a, b):
+                    both_num = nums(x) and nums(y)
+                    if both_num:
+                        same = sym.eq(x, y)
+                    elif x is None and y is None:
+                        same = True
+                    elif (x is None) != (y is None) and (nums(x) or nums(y) or x is None or y is None):
+                        same = False
+                    else:
+                        raise Unsupported(f"ordering of tuples with {type(x).__name__}/{type(y).__name__} items at line {line}")
+                    differs = sym.And(*(prefix + [sym.Not(same)]))
+                    if differs is not False:
+                        s_d = st.fork(differs if differs is not True else None, f"L{line}t{len(prefix)}")
+                        if self.feasible(s_d):
+                            if both_num:
+                                g = {ast.Lt: sym.lt, ast.LtE: sym.le, ast.Gt: sym.gt, ast.GtE: sym.ge}[type(op)]
+                                yield s_d, g(x, y)
+                            else:
+                                self.pending_raise(s_d, ExcVal(TypeError, line=line))
+                    if same is False:
+                        return
+                    if same is not True:
+                        prefix.append(same)
+                s_e = st.fork(sym.And(*prefix) if prefix else None, f"L{line}teq")
+                if self.feasible(s_e):
+                    la, lb = len(a), len(b)
+                    yield s_e, {ast.Lt: la < lb, ast.LtE: la <= lb, ast.Gt: la > lb, ast.GtE: la >= lb}[type(op)]
+                return
             f = {ast.Eq: lambda x, y: x == y, ast.NotEq: lambda x, y: x != y, ast.Lt: lambda x, y: x < y,
                  ast.LtE: lambda x, y: x <= y, ast.Gt: lambda x, y: x > y, ast.GtE: lambda x, y: x >= y}[type(op)]
             yield st, f(a, b)
@@ -1039,7 +1071,9 @@ class Executor:
                 if o is None or o[0] == "return":
                     rv = None if o is None else o[1]
                     if want_self:
-                        yield s, (rv, final_env.get(final_env.get("__first_arg__")))
+                        # True: the final value of the first parameter (self); a name: the final value of that parameter
+                        # (in-place updates of a dict / list argument rebind the local name)
+                        yield s, (rv, final_env.get(final_env.get("__first_arg__") if want_self is True else want_self))
                     else:
                         yield s, rv
                 elif o[0] == "raise":
